@@ -161,6 +161,8 @@ def run(ctx):
     cls = {"lock": 0, "refund": 0, "lock+refund": 0, "multi_realm": 0, "price_change": 0, "restricted_refund": 0,
            "limit_failures": 0, "foreign_owned": 0, "params": 0,
            # one realm changes its objects AND its own chain/params bytes in one message
+           # >= 2 realms grow in one message under an explicit max-deposit: each requirement fits, the sum does not / the sum fits
+           "limit_each_fits_sum_does_not": 0, "limit_sum_fits_two_realms": 0,
            "obj+params_same_sign": 0, "obj+params_opposite_sign": 0, "obj+params_two_realms": 0}
     prev = None
     for x in lines:
@@ -184,6 +186,12 @@ def run(ctx):
                 cls["foreign_owned"] += 1
             if "Param" in x.get("what", ""):
                 cls["params"] += 1
+            grow = [d * prev["price"] for d in x["diffs"].values() if d > 0]
+            if len(grow) >= 2 and x["limit"] > 0 and not x.get("nodiffs"):
+                if max(grow) <= x["limit"] < sum(grow):
+                    cls["limit_each_fits_sum_does_not"] += 1
+                elif sum(grow) <= x["limit"]:
+                    cls["limit_sum_fits_two_realms"] += 1
             both = [(x["odiffs"][r], x["pdiffs"][r]) for r in REALMS if x.get("odiffs", {}).get(r) and x.get("pdiffs", {}).get(r)]
             if x["ok"]:
                 cls["obj+params_same_sign"] += sum(1 for o, p in both if (o > 0) == (p > 0))
@@ -195,7 +203,7 @@ def run(ctx):
     ctx.cov["message_classes"] = cls
     need = ["lock", "refund", "multi_realm", "price_change", "params"] + ([] if quick else ["limit_failures", "restricted_refund", "foreign_owned"])
     missing = [k for k in need if not cls[k]]
-    for k, nq, nt in (("obj+params_same_sign", 3, 30), ("obj+params_opposite_sign", 2, 20), ("obj+params_two_realms", 1, 6)):
+    for k, nq, nt in (("limit_each_fits_sum_does_not", 1, 6), ("limit_sum_fits_two_realms", 1, 6), ("obj+params_same_sign", 3, 30), ("obj+params_opposite_sign", 2, 20), ("obj+params_two_realms", 1, 6)):
         if cls[k] < (nq if quick else nt):
             missing.append("%s (%d)" % (k, cls[k]))
     if missing:
